@@ -13,6 +13,7 @@ import CG.Props.C06
 import CG.Proofs.VRound
 import CG.Props.C02
 import CG.Proofs.VRoundBeh
+import CG.Proofs.VText
 namespace CG.C03
 open Verilog
 
@@ -115,6 +116,109 @@ theorem roundtrip_behavioral (c : Circuit) (ord ord' : Ord) (hord : OrdOK ord) (
   exact VB.roundtrip c ord ord' hord hord' hc.wr hnobb hnx
     (fun p hp h => hns p hp (Or.inr (Or.inr (Or.inr h))))
 
+/-! ### text level: the reader's lexer and parser invert the writer's renderer
+
+The theorems above relate syntax trees (`WModule.toModule`).  The two below close the gap to the emitted TEXT inside the
+model: lexing and parsing the rendered text gives back exactly that tree, so the round trip holds for
+`parseNetlist (write c …)`, i.e. for the characters the writer emits.  (What stays differential is the tie between this
+model of the lexer/parser and lark, and the module-extraction regular expression of `verilog_to_circuit`.) -/
+
+/-- a plain Verilog identifier as the lexer reads it: a letter or underscore followed by letters, digits, underscores,
+    and not one of the six keywords of the dialect -/
+def IdentOK (n : Name) : Prop :=
+  (∃ ch rest, n.toList = ch :: rest ∧ (isLetter ch = true ∨ ch = '_') ∧
+      ∀ x ∈ rest, isLetter x = true ∨ isDigit x = true ∨ x = '_') ∧
+  n ∉ keywords
+
+/-- every name the writer prints is a plain identifier: circuit name, ordinary nodes, instance names, blackbox type
+    names and pin names -/
+structure NamesOK (c : Circuit) : Prop where
+  name : IdentOK c.name
+  nodes : ∀ p ∈ c.nodes, (p.2.ty ≠ some "bb_input" ∧ p.2.ty ≠ some "bb_output") → IdentOK p.1
+  insts : ∀ q ∈ c.bbs, IdentOK q.1 ∧ IdentOK q.2.name ∧ ∀ g ∈ q.2.ins ++ q.2.outs, IdentOK g
+
+theorem NamesOK.nok {c : Circuit} (hn : NamesOK c) : VX.NOK c := ⟨hn.name, hn.nodes, hn.insts⟩
+
+/-- **C03 (text level, parser inverts renderer).** for every writable circuit with identifier-like names, at least one
+    port (`hio`) and at least one pin on every blackbox instance (`hpin`), and both output styles: the lexer accepts the
+    rendered text and the parser returns exactly the statement list the writer produced.
+    The two extra hypotheses are necessary: the writer prints `module m ();` for a circuit without ports and `ff u ();`
+    for a blackbox without pins, and the reader's grammar rejects both empty lists (counterexamples `cexPorts`,
+    `cexPins` below) -/
+theorem render_parse (c : Circuit) (beh : Bool) (ord : Ord) (hord : OrdOK ord) (hc : Writable c) (hn : NamesOK c)
+    (hio : c.inputs ≠ [] ∨ c.outputs ≠ []) (hpin : ∀ q ∈ c.bbs, q.2.ins ++ q.2.outs ≠ [])
+    (wm : WModule) (h : toWModule c beh ord = .ok wm) :
+    ∃ toks, lex (render wm) = some toks ∧ parseModule toks = some wm.toModule := by
+  obtain ⟨toks, hl, hp⟩ := VX.module_text wm (VX.wok_of_write c beh ord hord hc.wr hn.nok hio hpin wm h)
+  exact ⟨toks, VX.lex_of_lexes hl, hp⟩
+
+/-- **C03 (text level, gate-primitive form).** hence the structural round trip holds for the emitted characters:
+    `parseNetlist (write c false ord)` succeeds and returns a circuit with the same graph (same extra hypotheses as
+    `render_parse`, for the same reason) -/
+theorem roundtrip_text (c : Circuit) (ord ord' : Ord) (hord : OrdOK ord) (hord' : OrdOK ord') (hc : Writable c) (hn : NamesOK c)
+    (hio : c.inputs ≠ [] ∨ c.outputs ≠ []) (hpin : ∀ q ∈ c.bbs, q.2.ins ++ q.2.outs ≠ [])
+    (hnc : ∀ p ∈ c.nodes, p.2.ty ≠ some "0" ∧ p.2.ty ≠ some "1" ∧ p.2.ty ≠ some "x") :
+    ∃ t c', write c false ord = .ok t ∧ parseNetlist t (bbDefs c) ord' = .ok c' ∧ SameGraph c c' := by
+  obtain ⟨wm, c', hw, ht, hs⟩ := roundtrip_struct c ord ord' hord hord' hc hnc
+  obtain ⟨toks, hl, hp⟩ := render_parse c false ord hord hc hn hio hpin wm hw
+  refine ⟨render wm, c', ?_, ?_, hs⟩
+  · unfold write
+    rw [hw]
+    rfl
+  · unfold parseNetlist
+    rw [hl]
+    simp only []
+    rw [hp]
+    exact ht
+
+/-! the two extra hypotheses of the text-level theorems are necessary: a writable circuit with identifier names and no
+    ports, and one with a pin-less blackbox instance — the writer's text is rejected by the reader's parser -/
+theorem plainName_of_checks (n : Name) (h : n ≠ "" ∧ Circuit.isDigit0 n = false ∧ ¬ n.toList.contains '.' ∧
+    n.toList.head? ≠ some '\\' ∧ n ≠ "tie_0" ∧ n ≠ "tie_1" ∧ n ≠ "tie_x") : PlainName n := by
+  refine ⟨h.1, h.2.1, h.2.2.1, ?_, h.2.2.2.2⟩
+  rw [VR.startsWith_bs_iff]
+  rintro ⟨l, hl⟩
+  exact h.2.2.2.1 (by rw [hl]; rfl)
+theorem namesOK_of_check {c : Circuit} (h : VX.namesB c = true) : NamesOK c :=
+  ⟨(VX.names_of_namesB h).1, (VX.names_of_namesB h).2.1, (VX.names_of_namesB h).2.2⟩
+def cexPorts : Circuit := { name := "m" }
+def cexPins : Circuit :=
+  { name := "m", nodes := [("a", { ty := some "input", out := some false })],
+    bbs := [("u", { name := "ff", ins := [], outs := [] })] }
+example : Writable cexPorts ∧ NamesOK cexPorts :=
+  ⟨⟨Limit.lintClean_of_checks cexPorts ⟨by decide, by decide, by decide⟩ (by decide) (by decide) (by decide),
+    by decide, fun _ hp => absurd hp List.not_mem_nil, fun _ hp => absurd hp List.not_mem_nil,
+    fun _ hq => absurd hq List.not_mem_nil, by decide, by decide, by decide⟩, namesOK_of_check (by decide +kernel)⟩
+example : Writable cexPins ∧ NamesOK cexPins := by
+  have hbb : cexPins.bbs = [("u", { name := "ff", ins := [], outs := [] })] := rfl
+  have hnodes : cexPins.nodes = [("a", { ty := some "input", out := some false })] := rfl
+  refine ⟨⟨Limit.lintClean_of_checks cexPins ⟨by decide, by decide, by decide⟩ (by decide) (by decide) (by decide),
+    by decide, ?_, ?_, ?_, by decide, by decide, by decide⟩, namesOK_of_check (by decide +kernel)⟩
+  · intro p hp _
+    rw [hnodes, List.mem_singleton] at hp
+    subst hp
+    exact plainName_of_checks _ (by decide)
+  · intro p hp h
+    rw [hnodes, List.mem_singleton] at hp
+    subst hp
+    rcases h with h | h <;> exact absurd h (by decide)
+  · intro q hq
+    rw [hbb, List.mem_singleton] at hq
+    subst hq
+    exact ⟨fun _ hg => absurd hg List.not_mem_nil, fun _ hg => absurd hg List.not_mem_nil,
+      plainName_of_checks _ (by decide), plainName_of_checks _ (by decide), by decide,
+      fun _ hg => absurd hg List.not_mem_nil, by decide, by decide, fun _ hg => absurd hg List.not_mem_nil⟩
+/-- the writer succeeds on both; lexing succeeds, parsing fails: `module m ();` and `ff u ();` -/
+example : ((toWModule cexPorts false id).toOption.map (fun wm => (render wm, (lex (render wm)).isSome,
+      ((lex (render wm)).bind parseModule).isSome))) = some ("module m ();\n\n\n\nendmodule\n", true, false) ∧
+    ((toWModule cexPins false id).toOption.map (fun wm => (render wm, (lex (render wm)).isSome,
+      ((lex (render wm)).bind parseModule).isSome))) =
+      some ("module m (a);\n  input a;\n\n\n\n  ff u ();\nendmodule\n", true, false) := by
+  decide +kernel
+example : ((write cexPorts false id).toOption.map (fun t => (parseNetlist t (bbDefs cexPorts) id).toOption.isSome)) = some false ∧
+    ((write cexPins false id).toOption.map (fun t => (parseNetlist t (bbDefs cexPins) id).toOption.isSome)) = some false := by
+  decide +kernel
+
 /-! non-vacuity: a circuit with a flop whose clock pin is unconnected -/
 def ex : Circuit :=
   { name := "top",
@@ -213,6 +317,12 @@ example : Writable exB ∧ exB.bbs = [] ∧ (∀ p ∈ exB.nodes, p.2.ty ≠ som
       exact C02.Glue.not_syntheticLike (by decide) (by decide) (by decide) (by decide)
 example : ((toWModule exB true id).toOption.map (fun wm => render wm)) =
     some "module top (a, b, h, o);\n  input a;\n  input b;\n\n  output h;\n  output o;\n\n  wire k;\n  wire g;\n  wire h;\n  wire o;\n\n  assign k = 1'b1;\n  assign g = ~(a & b);\n  assign h = ~(g ^ k ^ a);\n  assign o = h;\nendmodule\n" := by
+  decide +kernel
+
+example : NamesOK exW := namesOK_of_check (by decide +kernel)
+example : (exW.inputs ≠ [] ∨ exW.outputs ≠ []) ∧ ∀ q ∈ exW.bbs, q.2.ins ++ q.2.outs ≠ [] := by decide
+example : ((write exW false id).toOption.bind (fun t => (parseNetlist t (bbDefs exW) id).toOption)).map
+    (fun c' => decide (c'.edges.length = exW.edges.length ∧ c'.nodes.length = exW.nodes.length)) = some true := by
   decide +kernel
 
 end CG.C03
